@@ -28,6 +28,7 @@ Cases ==
   { c \in [cver : {1, 2}, mem : Memories, st : Structs, o1 : Opt, o2 : Opt, gap : {0, 1024}, collide : BOOLEAN] :
       /\ (~Full => c.o1 = c.o2 /\ c.gap = 0 /\ c.cver = 1)
       /\ (c.cver = 2 => c.o1 = c.o2 /\ c.gap = 0)
+      /\ (c.gap # 0 => c.o1 = c.o2)
       /\ (c.mem = "serial_downloader" => c.o1.mode = "auto" /\ c.o2.mode = "auto" /\ ~c.collide) }   \* explicit offsets are ignored there
 
 (* flat list of abstract images: [ci, size, gap, mode] ; explicit modes only in container 1 (both readings of the offset agree there) *)
